@@ -235,3 +235,7 @@ def _labels(ctx):
     pops = [c for c in ast.walk(cls) if isinstance(c, ast.Call) and norm(c.func) == "self.block_stack.pop"]
     ctx.ob("C21.R6", P + ":WatParser", "every block/loop/if pushes its label and every end pops one (%d pushes, %d pops)" % (len(pushes), len(pops)), len(pushes) >= 2 and len(pops) >= len(pushes), construct="push-pop")
     ctx.ob("C21.R6", P + ":WatParser", "labels are popped from the top of the stack", all(not c.args for c in pops), construct="pop-top")
+    from .c23 import component_arity
+    ctx.rule("C21.R7", "the binary reader and the text parser construct every definition with the argument shape of its class", floor=20)
+    n = component_arity(ctx, "C21.R7", [RD, "ppci/wasm/text/parser.py"])
+    ctx.need(n >= 20, "component constructions in reader/parser not found (%d)" % n)
